@@ -209,8 +209,12 @@ def to_case(run: Run, c):
         return None
     samplers = [algo.samplers[n] for n in names]
     s0 = samplers[0]
-    scf = (f"{{| hist_len := {coq_Z(int(s0.acceptation_history_length))}; lo := {coq_Q(float(s0._mean_acceptation_lower_bound_before_adaptation))}; "
-           f"hi := {coq_Q(float(s0._mean_acceptation_upper_bound_before_adaptation))}; fac := {coq_Q(float(s0._adaptive_std_factor))} |}}")
+    # the settings as DECIMAL rationals (0.2 = 1/5): torch compares the float32 mean acceptance with the bound cast to float32, so a rate of
+    # exactly 5/25 is not below 0.2 - as in the exact model with lo = 1/5 (the binary64 value of 0.2 is slightly above 1/5)
+    from fractions import Fraction
+    dec = lambda x: coq_Q(Fraction(repr(float(x))))     # noqa: E731
+    scf = (f"{{| hist_len := {coq_Z(int(s0.acceptation_history_length))}; lo := {dec(s0._mean_acceptation_lower_bound_before_adaptation)}; "
+           f"hi := {dec(s0._mean_acceptation_upper_bound_before_adaptation)}; fac := {dec(s0._adaptive_std_factor)} |}}")
     ann = algo.algo_parameters.get("annealing", {})
     on = bool(getattr(algo, "annealing_on", False))
     if on and ann.get("oscillations", False):
@@ -378,7 +382,7 @@ def compose_coq(run: Run, cases, metas, lemmas, thorough: bool):
     # which comparison failed: one extra evaluation per failing case, the code compared with each possible value
     for i in bad or []:
         for code, text in CODES.items():
-            b2 = run.vm_bad_indices(f"composed_chain_code{code}", HDR_CHAIN, "chain_case", [cases[i]], f"(fun c => negb (Nat.eqb (check_chain_code {TOL} c) {code}))")
+            b2 = run.vm_bad_indices(f"composed_chain_code{code}", HDR_CHAIN, "chain_case", [cases[i]], f"(fun c => Nat.eqb (check_chain_code {TOL} c) {code})")
             if b2 == []:
                 run.extra.setdefault("composed_chain_first_difference", []).append(dict(run=metas[i], code=code, what=text))
                 run.log(f"composed chain: first difference = {code}: {text}")
@@ -407,3 +411,22 @@ def compose_coq(run: Run, cases, metas, lemmas, thorough: bool):
         run.fail("mcmc:decision-is-not-u-below-exp-minus-D" + (":tempered" if m["tinv"] != 1.0 else ""),
                  "a decision of the run is not `u < exp(-(delta attachment + temperature_inv * delta regularity))` for the fresh values before / after the proposal "
                  "at the temperature of that iteration", m)
+
+
+def replay_one(run: Run, inp, model, grid_df):
+    """Re-record the personalisation of a failing composed-chain input on the current tree and repeat both comparisons."""
+    df = grid_df(run, "grid-schedules-8" if int(inp.get("n_ind", 3)) == 8 else "grid-schedules")
+    c = record(run, model, df, inp["kind"], inp["algo"], int(inp["n_iter"]), inp["n_burn_in_iter"], int(inp["seed"]), ann=inp.get("annealing"),
+               sched=inp.get("schedule", "default"), random_order=inp.get("random_order_variables"))
+    enc = to_case(run, c) if c is not None else None
+    if enc is not None:
+        lit, meta, lem = enc
+        for m in lem:
+            m["run"] = dict(meta)
+        print(f"replay: recorded {meta['n_normals']} normals / {meta['n_uniforms']} uniforms, {meta['n_kept']} kept draws; re-executing inside Coq")
+        compose_coq(run, [lit], [meta], lem, run.tier == "thorough")
+        for d in run.extra.get("composed_chain_first_difference", []):
+            print("replay: first difference:", d["code"], d["what"])
+    bad = bool(run.has_problem)
+    print("replay:", "the composed model does NOT reproduce the run / a decision is not u < exp(-D)" if bad else "the composed model reproduces the run")
+    return 1 if bad else 0
